@@ -1,5 +1,6 @@
 pub mod alloc;
 pub mod codec;
 pub mod interp;
+pub mod gen;
 pub mod io;
 pub mod total;
